@@ -3,7 +3,7 @@
 # into /verif/seeded/<Cxx>-<suffix>/, re-verifies it in a fresh scratch worktree (verify_seeded.sh) and runs the owning
 # check's quick tier against it in the mirror (never touches /repo).
 set -u
-p="$1"; s="$2"; src=/tmp/wtD_$p; d=/verif/seeded/$p-$s
+p="$1"; s="$2"; src=/tmp/wt${s}_$p; d=/verif/seeded/$p-$s
 mkdir -p $d
 git -C $src diff -- src > $d/patch.diff
 [ -f $src/tests/demo_seeded.rs ] && cp $src/tests/demo_seeded.rs $d/demo.rs
